@@ -13,10 +13,13 @@
 //! EIP-5656 MCOPY: "copying takes place as if an intermediate buffer was used, allowing the
 //! destination and source to overlap"; memory is expanded to cover both windows.
 //!
-//! Sizes (memory pre-size, window offset/length, data length) are ENUMERATED with concrete loop
-//! counters as in c18_memory_grow (symbolic sizes turn the 4 KiB page object of `Memory` into a
-//! symbolically indexed/`resize`d array); byte contents, the source offset, `zero_fill` and the
-//! position that is read back are symbolic.
+//! All sizes (memory pre-size, window offset/length, data length, SOURCE OFFSET) are concrete
+//! per case, as in c18_memory_grow: a symbolic source offset makes `copy_size` symbolic and with
+//! it the `copy_from_slice` / `fill` lengths on the 4 KiB page object of `Memory` (11.7 GB, CBMC
+//! abort).  Symbolic: the old memory contents, the data bytes, `zero_fill` and the position that
+//! is read back (so every byte of the memory is checked).  At most 4-5 cases per harness: CBMC
+//! time grows faster than linearly with the number of `Memory` objects in one harness
+//! (1 / 4 / 8 cases: 27 / 67 / 316 CPU-s; 16 cases: > 900 s).
 use super::util::any_u256;
 use crate::interpreter::instructions::memory::{copy_to_memory, copy_within_memory};
 use crate::interpreter::memory::Memory;
@@ -35,17 +38,45 @@ fn mem_with(pre: usize, init: &[u8; PRE_MAX]) -> Memory {
     m.grow(pre);
     assert!(m.len() == pre);
     let mut i = 0;
-    while i < PRE_MAX {
-        if i < pre {
-            m[i] = init[i];
-        }
+    while i < pre {
+        m[i] = init[i];
         i += 1;
     }
     m
 }
 
-/// One concrete geometry, everything else symbolic.
-fn copy_to_case(pre: usize, dest_off: usize, dest_size: usize, data_len: usize, src: U256) {
+/// What the symbolic read-back position of a case looked at (for the cover witnesses, which
+/// have to live in the harness functions: a `kani::cover!` inside a shared helper would have to
+/// be satisfiable in EVERY harness that calls the helper).
+#[derive(Clone, Copy)]
+struct Wit {
+    /// read position inside the memory / inside the destination window
+    read: bool,
+    in_window: bool,
+    /// the source position of that byte lies inside the data
+    in_range: bool,
+    zero_fill: bool,
+    /// the byte at the read position held 0xAA before the call
+    dirty: bool,
+    /// read position is in memory that did not exist before the call
+    fresh: bool,
+    /// index inside the window / byte read back / byte 0 of the data
+    i: usize,
+    got: u8,
+}
+
+/// 256-bit source offsets that do not fit 64 bits (`min` must not look at the low limb only).
+fn big(k: usize) -> U256 {
+    match k {
+        0 => U256([0, 1, 0, 0]),       // 2^64: low limb 0
+        1 => U256([1, 0, 0, 1 << 63]), // 2^255 + 1: low limb 1
+        _ => U256([u64::MAX; 4]),      // 2^256 - 1
+    }
+}
+
+/// One concrete geometry (memory pre-size, window, data length, source offset); memory
+/// contents, data bytes, `zero_fill` and the position read back are symbolic.
+fn copy_to_case(pre: usize, dest_off: usize, dest_size: usize, data_len: usize, src: U256) -> Wit {
     let init: [u8; PRE_MAX] = kani::any();
     let mut mem = mem_with(pre, &init);
     let data: [u8; DATA_MAX] = kani::any();
@@ -65,10 +96,15 @@ fn copy_to_case(pre: usize, dest_off: usize, dest_size: usize, data_len: usize, 
     let want_len = if dest_size == 0 || ceil32(end) <= pre { pre } else { ceil32(end) };
     assert!(mem.len() == want_len);
 
+    let mut w = Wit { read: false, in_window: false, in_range: false, zero_fill, dirty: false, fresh: false, i: 0, got: 0 };
     let q: usize = kani::any();
     if q < want_len {
         let got = mem[q];
         let old = if q < pre { init[q] } else { 0 };
+        w.read = true;
+        w.got = got;
+        w.dirty = q < pre && init[q] == 0xAA;
+        w.fresh = q >= pre;
         if dest_off <= q && q < end {
             let i = (q - dest_off) as u64;
             // µs[1] + i < ||d|| over the integers (no wrap-around of the 256-bit offset)
@@ -81,25 +117,18 @@ fn copy_to_case(pre: usize, dest_off: usize, dest_size: usize, data_len: usize, 
             } else {
                 assert!(got == old);
             }
-            // the whole source window lies beyond the data while the destination byte is dirty
-            kani::cover!(zero_fill && !small && data_len > 0 && q < pre && init[q] == 0xAA);
-            kani::cover!(zero_fill && !small && src.0[3] != 0 && q < pre && init[q] == 0xAA);
-            kani::cover!(zero_fill && data_len == 0 && q < pre && init[q] == 0xAA);
-            // partially in range: byte 0 of the window from the data, a later one zero-filled
-            kani::cover!(zero_fill && small && !in_range && q < pre && init[q] == 0xAA && data[0] == 0x55);
-            kani::cover!(in_range && i > 0 && src.0[0] > 0 && data[(src.0[0] + i) as usize] == 0x55);
-            kani::cover!(!zero_fill && !in_range && q < pre && init[q] == 0xAA);
-            kani::cover!(q >= pre); // window in freshly grown memory
+            w.in_window = true;
+            w.in_range = in_range;
+            w.i = i as usize;
         } else {
             assert!(got == old);
-            kani::cover!(q < pre && init[q] == 0xAA && q == end && dest_size > 0);
-            kani::cover!(q < pre && init[q] == 0xAA && q + 1 == dest_off && dest_size > 0);
         }
     }
+    w
 }
 
 /// dest_size == 0: nothing changes and nothing grows, for ANY 256-bit destination / source offset.
-fn copy_to_empty_case(pre: usize, data_len: usize) {
+fn copy_to_empty_case(pre: usize, data_len: usize) -> (bool, U256) {
     let init: [u8; PRE_MAX] = kani::any();
     let mut mem = mem_with(pre, &init);
     let data: [u8; DATA_MAX] = kani::any();
@@ -110,88 +139,124 @@ fn copy_to_empty_case(pre: usize, data_len: usize) {
     assert!(r.is_ok());
     assert!(mem.len() == pre);
     let q: usize = kani::any();
+    let mut dirty = false;
     if q < pre {
         assert!(mem[q] == init[q]);
-        kani::cover!(init[q] == 0xAA && dest.0[3] != 0 && zero_fill);
-        kani::cover!(init[q] == 0xAA && dest.0[0] == q as u64 && dest.0[1] == 0 && dest.0[2] == 0 && dest.0[3] == 0);
+        dirty = init[q] == 0xAA && zero_fill;
     }
+    (dirty, dest)
 }
 
-/// 256-bit source offsets that do not fit 64 bits (`min` must not look at the low limb only).
-fn big(k: usize) -> U256 {
-    match k {
-        0 => U256([0, 1, 0, 0]),          // 2^64: low limb 0
-        1 => U256([1, 0, 0, 1 << 63]),    // 2^255 + 1: low limb 1
-        _ => U256([u64::MAX; 4]),         // 2^256 - 1
-    }
-}
-
-/// Quick tier: memory of 32 dirty bytes; windows inside it, straddling its end (growth to 64)
-/// and entirely beyond it; data of 0 and 4 bytes; source offsets before, at and beyond the end
-/// of the data.
+/// Window (3, 6) inside 32 dirty bytes, 4 bytes of data: source window partially in range,
+/// starting exactly at the end of the data, 2^64 beyond it (low limb 0), and empty data.
 #[kani::proof]
-#[kani::unwind(70)]
+#[kani::unwind(40)]
 fn c17_copy_to_memory() {
-    // (dest_offset, dest_size, data_len, data_offset)
-    let cases: [(usize, usize, usize, usize); 11] = [
-        (3, 6, 4, 0),  // 4 bytes copied, 2 zero-filled
-        (3, 6, 4, 2),  // 2 copied, 4 zero-filled
-        (3, 6, 4, 4),  // source window starts exactly at the end of the data
-        (3, 6, 4, 5),  // ... and beyond it
-        (3, 6, 0, 0),  // empty data
-        (3, 6, 0, 7),
-        (1, 2, 4, 1),  // entirely in range, nothing to fill
-        (28, 8, 4, 1), // window straddles the end of memory: growth to 64
-        (28, 8, 4, 9),
-        (40, 3, 4, 3), // window beyond the end of memory
-        (0, 1, 4, 4),
-    ];
-    let mut c = 0;
-    while c < 11 {
-        copy_to_case(32, cases[c].0, cases[c].1, cases[c].2, U256::from(cases[c].3 as u64));
-        c += 1;
-    }
-    let mut k = 0;
-    while k < 3 {
-        copy_to_case(32, 3, 6, 4, big(k));
-        k += 1;
-    }
-    copy_to_empty_case(32, 4);
-    copy_to_empty_case(0, 0);
-    kani::cover!(c == 11 && k == 3);
+    let w = copy_to_case(32, 3, 6, 4, U256::from(2u64)); // 2 bytes copied, 4 zero-filled
+    kani::cover!(w.in_window && w.in_range && w.i == 1 && w.got == 0x55);
+    kani::cover!(w.in_window && !w.in_range && w.zero_fill && w.dirty && w.i == 2);
+    kani::cover!(w.in_window && !w.in_range && !w.zero_fill && w.dirty && w.got == 0xAA);
+    kani::cover!(w.read && !w.in_window && w.dirty);
+
+    let w = copy_to_case(32, 3, 6, 4, U256::from(4u64)); // nothing in range
+    kani::cover!(w.in_window && w.zero_fill && w.dirty && w.i == 0);
+    kani::cover!(w.in_window && w.zero_fill && w.dirty && w.i == 5);
+
+    let w = copy_to_case(32, 3, 6, 4, big(0));
+    kani::cover!(w.in_window && w.zero_fill && w.dirty && w.i == 0);
+
+    let w = copy_to_case(32, 3, 6, 0, U256::zero()); // empty data
+    kani::cover!(w.in_window && w.zero_fill && w.dirty && w.i == 3);
 }
 
-/// Thorough tier: more geometries (pre-size 0 / 32 / 64, window length up to 8, data length
-/// 0..4, every source offset 0..=data_len+1 and the three 256-bit ones).
+/// Windows that straddle the end of memory or lie beyond it (growth 32 -> 64), and a window that
+/// is entirely in range (nothing to fill).
+#[kani::proof]
+#[kani::unwind(40)]
+fn c17_copy_to_memory_grow() {
+    let w = copy_to_case(32, 28, 8, 4, U256::from(1u64)); // 3 copied, 5 filled, 4 of them fresh
+    kani::cover!(w.in_window && w.in_range && w.i == 2 && w.got == 0x55);
+    kani::cover!(w.in_window && !w.in_range && w.dirty && w.zero_fill && w.i == 3);
+    kani::cover!(w.in_window && w.fresh);
+    kani::cover!(w.read && !w.in_window && w.fresh);
+
+    let w = copy_to_case(32, 28, 8, 4, U256::from(9u64));
+    kani::cover!(w.in_window && w.dirty && w.zero_fill && w.i == 0);
+
+    let w = copy_to_case(32, 40, 3, 4, U256::from(3u64)); // 1 copied into fresh memory
+    kani::cover!(w.in_window && w.in_range && w.fresh && w.got == 0x55);
+    kani::cover!(w.read && !w.in_window && w.dirty);
+
+    let w = copy_to_case(32, 1, 2, 4, U256::from(1u64)); // fully in range
+    kani::cover!(w.in_window && w.in_range && w.i == 1 && w.zero_fill && w.got == 0x55);
+    kani::cover!(w.read && !w.in_window && w.dirty);
+}
+
+/// dest_size == 0 with ANY 256-bit destination and source offset (dirty and empty memory), and
+/// the two remaining 256-bit source offsets on the (3, 6) window.
+#[kani::proof]
+#[kani::unwind(40)]
+fn c17_copy_to_memory_empty() {
+    let (dirty, dest) = copy_to_empty_case(32, 4);
+    kani::cover!(dirty && dest.0[3] != 0);
+    kani::cover!(dirty && dest.0[0] == 3 && dest.0[1] == 0 && dest.0[2] == 0 && dest.0[3] == 0);
+    let (_, dest) = copy_to_empty_case(0, 0);
+    kani::cover!(dest.0[0] == 0 && dest.0[1] == 0 && dest.0[2] == 0 && dest.0[3] == 0);
+
+    let w = copy_to_case(32, 3, 6, 4, big(1));
+    kani::cover!(w.in_window && w.zero_fill && w.dirty && w.i == 0);
+    let w = copy_to_case(32, 3, 6, 4, big(2));
+    kani::cover!(w.in_window && w.zero_fill && w.dirty && w.i == 1);
+}
+
+/// Thorough tier: empty memory before the call.
 #[kani::proof]
 #[kani::unwind(70)]
-fn c17_copy_to_memory_wide() {
-    let pres: [usize; 3] = [0, 32, 64];
-    let win: [(usize, usize); 4] = [(0, 8), (27, 5), (31, 2), (60, 4)];
-    let mut p = 0;
-    while p < 3 {
-        let mut w = 0;
-        while w < 4 {
-            let mut d = 0;
-            while d <= DATA_MAX {
-                let mut o = 0;
-                while o <= d + 1 {
-                    copy_to_case(pres[p], win[w].0, win[w].1, d, U256::from(o as u64));
-                    o += 1;
-                }
-                d += 2;
-            }
-            copy_to_case(pres[p], win[w].0, win[w].1, 3, big(w % 3));
-            w += 1;
-        }
-        copy_to_empty_case(pres[p], 3);
-        p += 1;
-    }
-    kani::cover!(p == 3);
+fn c17_copy_to_memory_pre0() {
+    let w = copy_to_case(0, 0, 8, 4, U256::zero()); // 4 copied, 4 filled
+    kani::cover!(w.in_window && w.in_range && w.i == 3 && w.got == 0x55);
+    kani::cover!(w.in_window && !w.in_range && w.i == 4);
+    let w = copy_to_case(0, 31, 2, 4, U256::from(3u64)); // crosses the word boundary: 64 bytes
+    kani::cover!(w.in_window && w.in_range && w.got == 0x55);
+    kani::cover!(w.read && !w.in_window && w.fresh);
+    let w = copy_to_case(0, 5, 1, 0, U256::zero());
+    kani::cover!(w.in_window && !w.zero_fill);
+    let w = copy_to_case(0, 33, 7, 4, U256::from(6u64));
+    kani::cover!(w.in_window && w.i == 6);
+}
+
+/// Thorough tier: 64 dirty bytes before the call.
+#[kani::proof]
+#[kani::unwind(70)]
+fn c17_copy_to_memory_pre64() {
+    let w = copy_to_case(64, 60, 4, 4, U256::from(1u64)); // window ends exactly at the end: no growth
+    kani::cover!(w.in_window && !w.in_range && w.zero_fill && w.dirty && w.i == 3);
+    kani::cover!(w.in_window && w.in_range && w.i == 2 && w.got == 0x55);
+    let w = copy_to_case(64, 27, 5, 3, big(1));
+    kani::cover!(w.in_window && w.zero_fill && w.dirty && w.i == 4);
+    let w = copy_to_case(64, 62, 4, 4, U256::from(2u64)); // growth 64 -> 96
+    kani::cover!(w.in_window && w.fresh && !w.in_range);
+    kani::cover!(w.in_window && w.dirty && w.in_range && w.got == 0x55);
+    let w = copy_to_case(64, 0, 8, 2, U256::from(1u64));
+    kani::cover!(w.in_window && w.zero_fill && w.dirty && w.i == 1);
+    kani::cover!(w.read && !w.in_window && w.dirty);
+}
+
+/// What the read-back position of an MCOPY case looked at.
+#[derive(Clone, Copy)]
+struct MWit {
+    read: bool,
+    in_dest: bool,
+    /// the position also lies inside the SOURCE window (overlap)
+    in_src: bool,
+    /// source byte came from beyond the old end of memory (reads as zero)
+    src_fresh: bool,
+    fresh: bool,
+    moved: bool,
 }
 
 /// MCOPY through `copy_within_memory(memory, dest, src, size)`, one concrete geometry.
-fn mcopy_case(pre: usize, dest: usize, src: usize, size: usize) {
+fn mcopy_case(pre: usize, dest: usize, src: usize, size: usize) -> MWit {
     let init: [u8; PRE_MAX] = kani::any();
     let mut mem = mem_with(pre, &init);
     let r = copy_within_memory(
@@ -205,77 +270,58 @@ fn mcopy_case(pre: usize, dest: usize, src: usize, size: usize) {
     let want_len = if need > pre { need } else { pre };
     assert!(mem.len() == want_len);
 
+    let mut w = MWit { read: false, in_dest: false, in_src: false, src_fresh: false, fresh: false, moved: false };
     let q: usize = kani::any();
     if q < want_len {
         // reference: the byte at q comes out of an intermediate buffer filled from the OLD memory
-        // (zero beyond its old end)
-        let from = if dest <= q && q < dest + size { src + (q - dest) } else { q };
+        // (zero beyond its old end); everything outside the destination window is unchanged
+        let in_dest = dest <= q && q < dest + size;
+        let from = if in_dest { src + (q - dest) } else { q };
         let want = if from < pre { init[from] } else { 0 };
-        assert!(mem[q] == want);
-        // overlapping forwards (dest > src) and backwards (dest < src), byte really moved
-        kani::cover!(dest > src && dest < src + size && q >= dest && q < dest + size && q < src + size && want == 0xAA && init[q] == 0x55);
-        kani::cover!(dest < src && src < dest + size && q >= src && q < dest + size && want == 0xAA && init[q] == 0x55);
-        kani::cover!(want_len > pre && q >= pre && want == 0xAA);
-        kani::cover!(from >= pre && q < pre && init[q] == 0x55); // zeros read from the grown source
+        let got = mem[q];
+        assert!(got == want);
+        w.read = true;
+        w.in_dest = in_dest;
+        w.in_src = src <= q && q < src + size;
+        w.src_fresh = from >= pre;
+        w.fresh = q >= pre;
+        // the byte really changed: 0xAA arrived where 0x55 (or fresh zero) was
+        w.moved = got == 0xAA && (q >= pre || init[q] == 0x55);
     }
+    w
 }
 
+/// Overlapping windows in both directions and windows that make memory grow (destination /
+/// source straddling the old end).  size >= 1: the size == 0 guard is in `mcopy` itself.
 #[kani::proof]
-#[kani::unwind(70)]
+#[kani::unwind(40)]
 fn c17_copy_within_memory() {
-    // (pre, dest, src, size)
-    let cases: [(usize, usize, usize, usize); 8] = [
-        (32, 0, 1, 8),   // overlap, dest < src
-        (32, 1, 0, 8),   // overlap, dest > src
-        (32, 4, 4, 5),   // identical windows
-        (32, 20, 2, 6),  // disjoint
-        (32, 30, 0, 4),  // destination straddles the end: growth to 64
-        (32, 0, 28, 8),  // source straddles the end: growth, zeros copied in
-        (32, 36, 30, 5), // both beyond / straddling
-        (0, 3, 0, 2),    // empty memory
-    ];
-    let mut c = 0;
-    while c < 8 {
-        mcopy_case(cases[c].0, cases[c].1, cases[c].2, cases[c].3);
-        c += 1;
-    }
-    kani::cover!(c == 8);
+    let w = mcopy_case(32, 0, 1, 8); // overlap, dest < src
+    kani::cover!(w.in_dest && w.in_src && w.moved);
+    kani::cover!(w.read && !w.in_dest && w.in_src);
+    let w = mcopy_case(32, 1, 0, 8); // overlap, dest > src
+    kani::cover!(w.in_dest && w.in_src && w.moved);
+    kani::cover!(w.read && !w.in_dest && w.in_src);
+    let w = mcopy_case(32, 30, 0, 4); // destination straddles the end: growth to 64
+    kani::cover!(w.in_dest && w.fresh && w.moved);
+    kani::cover!(w.read && !w.in_dest && w.fresh);
+    let w = mcopy_case(32, 0, 28, 8); // source straddles the end: growth, zeros copied in
+    kani::cover!(w.in_dest && w.src_fresh);
+    kani::cover!(w.in_dest && !w.src_fresh && w.moved);
 }
 
-// ---- EXPERIMENTS (to be removed)
+/// Thorough tier: identical, disjoint, both-beyond-the-end windows and empty memory.
 #[kani::proof]
-#[kani::unwind(70)]
-fn x1() {
-    copy_to_case(32, 3, 6, 4, U256::from(2u64));
-    kani::cover!(true);
-}
-#[kani::proof]
-#[kani::unwind(70)]
-fn x4() {
-    let mut c = 0;
-    while c < 4 {
-        copy_to_case(32, 3, 6, 4, U256::from(c as u64));
-        c += 1;
-    }
-    kani::cover!(true);
-}
-#[kani::proof]
-#[kani::unwind(70)]
-fn x8() {
-    let mut c = 0;
-    while c < 8 {
-        copy_to_case(32, 3, 6, 4, U256::from(c as u64));
-        c += 1;
-    }
-    kani::cover!(true);
-}
-#[kani::proof]
-#[kani::unwind(70)]
-fn x4g() {
-    let mut c = 0;
-    while c < 4 {
-        copy_to_case(32, 28, 8, 4, U256::from(c as u64));
-        c += 1;
-    }
-    kani::cover!(true);
+#[kani::unwind(40)]
+fn c17_copy_within_memory_more() {
+    let w = mcopy_case(32, 4, 4, 5); // identical windows
+    kani::cover!(w.in_dest && w.in_src);
+    let w = mcopy_case(32, 20, 2, 6); // disjoint
+    kani::cover!(w.in_dest && w.moved);
+    kani::cover!(w.read && !w.in_dest && w.in_src);
+    let w = mcopy_case(32, 36, 30, 5); // source straddles, destination beyond the end
+    kani::cover!(w.in_dest && w.fresh && w.moved);
+    kani::cover!(w.in_dest && w.src_fresh);
+    let w = mcopy_case(0, 3, 0, 2); // empty memory
+    kani::cover!(w.in_dest && w.fresh);
 }
